@@ -285,7 +285,7 @@ func init() {
 	vf.Register(&vf.Check{
 		ID: "C09", Title: "EML parsing is total",
 		Run: func(r *vf.Run) {
-			r.SetRule("(a) every byte string of length <= 6 (thorough 7) over {a : SP CR LF ; = \" -} as whole input; (b) structure-aware mutants of 8 valid seeds (plain 8bit/QP/base64, alternative, mixed+attachment, mixed>related>alternative, two hand-written): every slot (header name, value, parameter name/value, boundary line, blank line, continuation) × 22 mutations — all single and all pairs of slot mutations (thorough: triples around Content-Type/Disposition); (c) for every seed and single mutant a reader failing at every offset (seeds) / 8 offsets (mutants), a one-byte reader, and the file entry point; (d) header-value grammars: every token string of length <= 4 (thorough 5) over an address alphabet {a @ b.example < > , : ; \" SP ( ) encoded-word} as From/To/Cc/Bcc/Reply-To/Content-ID value, over a media-type alphabet as Content-Type/-Transfer-Encoding/-Disposition value (top level and inside a multipart part), over a date alphabet as Date value; oracle: the call returns (no panic) within the watchdog; distinct by input bytes and mode")
+			r.SetRule("(a) every byte string of length <= 6 (thorough 7) over {a : SP CR LF ; = \" -} as whole input; (b) structure-aware mutants of 8 valid seeds (plain 8bit/QP/base64, alternative, mixed+attachment, mixed>related>alternative, two hand-written): every slot (header name, value, parameter name/value, boundary line, blank line, continuation) × 22 mutations — all single and all pairs of slot mutations (thorough: triples around Content-Type/Disposition); (c) for every seed and single mutant a reader failing at every offset (seeds) / 8 offsets (mutants), a one-byte reader, and the file entry point; (d) header-value grammars: every token string of length <= 4 (thorough 5) over an address alphabet {a @ b.example < > , : ; \" SP ( ) encoded-word} as From/To/Cc/Bcc/Reply-To/Content-ID value, over a media-type alphabet as Content-Type/-Transfer-Encoding/-Disposition value (top level and inside a multipart part), over a date alphabet as Date value; (e) size and depth sweeps: 16 structural elements (semicolons / parameters / RFC 2231 continuations in a header, nested multiparts closed and unclosed, parts, alternatives, continuation lines, header length, recipients, boundary length, header count, base64 / QP body lines, encoded-words) each repeated N times for N = 0..40, 63..65, 100, 127..129, 255..257, 1000, 1024, 4095..4097 (thorough: up to 100000); oracle: the call returns (no panic) within the watchdog; distinct by input bytes and mode")
 			r.Assume("termination is decided by a 30 s per-case watchdog (a bound, not a proof)")
 			dir := filepath.Join(os.Getenv("VERIF_WORK"), fmt.Sprintf("c09-%d", os.Getpid()))
 			_ = os.MkdirAll(dir, 0o755)
@@ -534,6 +534,137 @@ func init() {
 					})
 				}
 				r.Extra("header_value_inputs", nvals)
+			}
+			// (e) size and depth sweeps: one structural element repeated N times, N = 0..40 and powers beyond
+			{
+				type gen struct {
+					name string
+					f    func(n int) []byte
+				}
+				rep := strings.Repeat
+				hdr := "From: a@b.example\r\nTo: c@d.example\r\nSubject: s\r\n"
+				nest := func(n int, closeAll bool) []byte {
+					var b strings.Builder
+					b.WriteString(hdr)
+					for i := 0; i < n; i++ {
+						fmt.Fprintf(&b, "Content-Type: multipart/mixed; boundary=b%d\r\n\r\n--b%d\r\n", i, i)
+					}
+					b.WriteString("Content-Type: text/plain\r\n\r\ninnermost\r\n")
+					if closeAll {
+						for i := n - 1; i >= 0; i-- {
+							fmt.Fprintf(&b, "--b%d--\r\n", i)
+						}
+					}
+					return []byte(b.String())
+				}
+				gens := []gen{
+					{"n-semicolons-in-content-type", func(n int) []byte { return []byte(hdr + "Content-Type: text/plain" + rep(";", n) + "\r\n\r\nbody\r\n") }},
+					{"n-parameters-in-content-type", func(n int) []byte {
+						var b strings.Builder
+						b.WriteString(hdr + "Content-Type: text/plain")
+						for i := 0; i < n; i++ {
+							fmt.Fprintf(&b, "; p%d=v%d", i, i)
+						}
+						b.WriteString("\r\n\r\nbody\r\n")
+						return []byte(b.String())
+					}},
+					{"n-filename-continuations-in-part-disposition", func(n int) []byte {
+						var b strings.Builder
+						b.WriteString(hdr + "Content-Type: multipart/mixed; boundary=xyz\r\n\r\n--xyz\r\nContent-Type: text/plain\r\n\r\nbody\r\n--xyz\r\nContent-Type: application/octet-stream\r\nContent-Disposition: attachment")
+						for i := 0; i < n; i++ {
+							fmt.Fprintf(&b, ";\r\n filename*%d=\"part%d-\"", i, i)
+						}
+						b.WriteString("\r\nContent-Transfer-Encoding: base64\r\n\r\nAAEC\r\n--xyz--\r\n")
+						return []byte(b.String())
+					}},
+					{"n-semicolons-in-part-transfer-encoding", func(n int) []byte {
+						return []byte(hdr + "Content-Type: multipart/mixed; boundary=xyz\r\n\r\n--xyz\r\nContent-Type: text/plain\r\nContent-Transfer-Encoding: 8bit" + rep(";x", n) + "\r\n\r\nbody\r\n--xyz--\r\n")
+					}},
+					{"n-nested-multiparts-closed", func(n int) []byte { return nest(n, true) }},
+					{"n-nested-multiparts-unclosed", func(n int) []byte { return nest(n, false) }},
+					{"n-parts", func(n int) []byte {
+						var b strings.Builder
+						b.WriteString(hdr + "Content-Type: multipart/mixed; boundary=xyz\r\n\r\n")
+						for i := 0; i < n; i++ {
+							fmt.Fprintf(&b, "--xyz\r\nContent-Type: text/plain\r\nContent-Disposition: attachment; filename=f%d.txt\r\n\r\npart %d\r\n", i, i)
+						}
+						b.WriteString("--xyz--\r\n")
+						return []byte(b.String())
+					}},
+					{"n-alternatives", func(n int) []byte {
+						var b strings.Builder
+						b.WriteString(hdr + "Content-Type: multipart/alternative; boundary=xyz\r\n\r\n")
+						for i := 0; i < n; i++ {
+							fmt.Fprintf(&b, "--xyz\r\nContent-Type: text/%s\r\n\r\nalt %d\r\n", []string{"plain", "html"}[i%2], i)
+						}
+						b.WriteString("--xyz--\r\n")
+						return []byte(b.String())
+					}},
+					{"n-continuation-lines-in-subject", func(n int) []byte {
+						return []byte("From: a@b.example\r\nSubject: s" + rep("\r\n more", n) + "\r\n\r\nbody\r\n")
+					}},
+					{"subject-of-n-characters", func(n int) []byte { return []byte("From: a@b.example\r\nSubject: " + rep("x", n) + "\r\n\r\nbody\r\n") }},
+					{"n-recipients", func(n int) []byte {
+						var l []string
+						for i := 0; i < n; i++ {
+							l = append(l, fmt.Sprintf("\"N %d\" <r%d@x.example>", i, i))
+						}
+						return []byte("From: a@b.example\r\nTo: " + strings.Join(l, ",\r\n ") + "\r\n\r\nbody\r\n")
+					}},
+					{"boundary-of-n-characters", func(n int) []byte {
+						bd := rep("b", n)
+						return []byte(hdr + "Content-Type: multipart/mixed; boundary=\"" + bd + "\"\r\n\r\n--" + bd + "\r\nContent-Type: text/plain\r\n\r\nbody\r\n--" + bd + "--\r\n")
+					}},
+					{"n-generic-headers", func(n int) []byte {
+						var b strings.Builder
+						b.WriteString(hdr)
+						for i := 0; i < n; i++ {
+							fmt.Fprintf(&b, "X-H%d: v%d\r\n", i, i)
+						}
+						b.WriteString("\r\nbody\r\n")
+						return []byte(b.String())
+					}},
+					{"base64-body-of-n-lines", func(n int) []byte {
+						return []byte(hdr + "Content-Type: text/plain\r\nContent-Transfer-Encoding: base64\r\n\r\n" + rep("QUJDREVGR0hJSktMTU5PUFFSU1RVVldYWVo=\r\n", n))
+					}},
+					{"qp-body-of-n-soft-breaks", func(n int) []byte {
+						return []byte(hdr + "Content-Type: text/plain\r\nContent-Transfer-Encoding: quoted-printable\r\n\r\n" + rep("abc=\r\n", n) + "end\r\n")
+					}},
+					{"n-encoded-words-in-subject", func(n int) []byte {
+						return []byte("From: a@b.example\r\nSubject: " + rep("=?utf-8?q?x=C3=BC?= ", n) + "\r\n\r\nbody\r\n")
+					}},
+				}
+				var ns []int
+				for n := 0; n <= 40; n++ {
+					ns = append(ns, n)
+				}
+				ns = append(ns, 63, 64, 65, 100, 127, 128, 129, 255, 256, 257, 1000, 1024, 4095, 4096, 4097)
+				if r.Thorough {
+					ns = append(ns, 10000, 65535, 65536, 100000)
+				}
+				type sz struct{ g, n int }
+				var jobs []sz
+				for gi := range gens {
+					for _, n := range ns {
+						if strings.Contains(gens[gi].name, "nested") && n > 1100 {
+							continue
+						}
+						jobs = append(jobs, sz{gi, n})
+					}
+				}
+				r.Parallel(len(jobs), "C09 size sweeps", func(i int) {
+					s := newSlot()
+					j := jobs[i]
+					in := gens[j.g].f(j.n)
+					what := fmt.Sprintf("size/%s", gens[j.g].name)
+					exec(s, c09Case{Input: in, Mode: 0, What: what})
+					exec(s, c09Case{Input: in, Mode: 1, What: what})
+					if j.n <= 64 {
+						exec(s, c09Case{Input: in, Mode: 3, What: what})
+					}
+					r.Transition(vf.Hash("size", gens[j.g].name), fmt.Sprint(j.n), vf.Hash("size-done", gens[j.g].name))
+				})
+				r.Extra("size_sweep_inputs", len(jobs))
 			}
 			// (c) seeds with a reader failing at every offset
 			for si, seed := range seeds {
